@@ -151,6 +151,14 @@ fn fix(mut c: Cfg) -> Cfg {
     c
 }
 
+fn fix_large(c: Cfg) -> Cfg {
+    let mut c = fix(c);
+    if !c.no_start && !c.no_end {
+        c.no_end = true;
+    }
+    c
+}
+
 fn anchor_cfgs(base: &Cfg) -> Vec<Cfg> {
     let mut v = vec![];
     for (s, e) in [(true, false), (false, true), (true, true)] {
@@ -219,6 +227,12 @@ fn run(ctx: &mut Ctx) {
             .boxed()
     };
     ctx.generated("gen", &strat, total, &|s, c, st| {
+        count_pool(c, st);
+        case_fn(s, c, st)
+    });
+    let total_large = ctx.tier.pick(4000, 100000);
+    let strat_large = move || case_strategy_large(ALL_POOLS, W_PREFIX, fix_large);
+    ctx.generated("gen-large", &strat_large, total_large, &|s, c, st| {
         count_pool(c, st);
         case_fn(s, c, st)
     });
